@@ -35,6 +35,7 @@ def gen_cases(ctx, cfgname, consts, timeout=1500):
     os.remove(cfg)
     if r.outcome != "ok":
         raise vlib.ModelFailure("LsqCases generator: %s\n%s" % (r.outcome, r.out[-3000:]))
+    r.cases.sort(key=lambda c: json.dumps(c, sort_keys=True))     # TLC's output order depends on worker scheduling
     r.lev = [c.get("lev") for c in r.cases]
     r.cases = [c["c"] for c in r.cases]
     return r
